@@ -1,4 +1,427 @@
 import FqModel.Proto
-/-! driver for C10 (stub — replaced by the property's own driver) -/
-open FqModel.Proto
-def main : IO Unit := run (fun _ _ => "BADOP driver-stub")
+import FqModel.Dump
+import FqModel.C10Json
+/-!
+  driver for C10.  Ops (observation after TAB; line feeds of the observed text are U+001E):
+
+  hexw   <width> <start> <chunk,chunk,…>        text written by the real hexpairwriter
+  asciiw <width> <start> <chunk,chunk,…>        text written by the real asciiwriter
+  colw   <col;col;…>                            col = m<width|n>:<hex text> | b:<hex text>; rows printed by columnwriter
+  fmt    <base> <n> <prefix 0|1> <width>        mathx.PadFormatInt
+  bits   <base> <n>                             mathx.Bits.StringByteBits
+  range  <base> <start> <len>                   mathx.BitRange.StringByteBits
+  digits <base> <n>                             mathx.DigitsInBase(n, true, base)
+  dump   k=… lb= ab= sb= db= c= vr= L= s= n= wo= root=<hex>     rows printed by d/dv/hd for ONE value
+  tree   lb= ab= L= root=<hex>                  rows of a whole-tree dump (one root buffer): cell truth only
+  json   <mode c|i|t> <json text>               what fq prints for the value
+-/
+open FqModel FqModel.Proto FqModel.Dump FqModel.C10Json
+
+def rsep : Char := Char.ofNat 0x1e
+
+def obsText (obs : String) : List Char := obs.toList.map fun c => if c = rsep then '\n' else c
+
+def showText (cs : List Char) : String := String.ofList (cs.map fun c => if c = '\n' then rsep else c)
+
+def splitOnChar (sep : Char) (cs : List Char) : List (List Char) :=
+  let (ls, r) := cs.foldl (fun (acc : List (List Char) × List Char) c =>
+    if c = sep then (acc.2.reverse :: acc.1, []) else (acc.1, c :: acc.2)) ([], [])
+  (r.reverse :: ls).reverse
+
+def parseChunks (s : String) : Option (List (List UInt8)) :=
+  (s.splitOn ",").mapM bytesOfHex
+
+def kv (ws : List String) (k : String) : Option String :=
+  ws.findSome? fun w => if w.startsWith (k ++ "=") then some ((w.drop (k.length + 1)).toString) else none
+
+def kvNat (ws : List String) (k : String) : Option Nat := (kv ws k).bind String.toNat?
+
+/-! ### writers -/
+
+def stepHexw (w start : Nat) (chunks : List (List UInt8)) (obs : String) : String :=
+  if w = 0 then "BADOP width" else
+  let impl := obsText obs
+  let model := hexRun w start 0 chunks
+  let bs := chunks.flatten
+  let want : List (Nat × Nat × Cell) := expectCells w 0 (List.replicate start Cell.blank ++ bs.map Cell.byte)
+  let got := parseHex 0 0 impl
+  let div := if model == impl then "" else s!" ;DIVERGE model={showText model}"
+  if bs.isEmpty then (if div.isEmpty then "OK" else s!"DIVERGE model={showText model}")
+  else if got != want then
+    s!"PROPFAIL hex cells read back differ from the input bytes at their (row,col){div}"
+  else if div.isEmpty then "OK" else s!"DIVERGE model={showText model}"
+
+def stepAsciiw (w start : Nat) (chunks : List (List UInt8)) (obs : String) : String :=
+  if w = 0 then "BADOP width" else
+  let impl := obsText obs
+  let model := asciiRun w start 0 chunks
+  let bs := chunks.flatten
+  let want : List (Nat × Nat × Char) := expectCells w 0 (List.replicate start ' ' ++ bs.map safeAscii)
+  let got := parseAscii 0 0 impl
+  let div := if model == impl then "" else s!" ;DIVERGE model={showText model}"
+  if bs.isEmpty then (if div.isEmpty then "OK" else s!"DIVERGE model={showText model}")
+  else if start < w && got != want then
+    s!"PROPFAIL ascii cells read back differ from the input bytes at their (row,col){div}"
+  else if div.isEmpty then "OK" else s!"DIVERGE model={showText model}"
+
+def parseCol (s : String) : Option Column :=
+  match s.splitOn ":" with
+  | [k, h] =>
+    match bytesOfHex h with
+    | none => none
+    | some bs =>
+      let t := bs.map fun b => Char.ofNat b.toNat
+      if k == "b" then some (.bar t)
+      else if k == "mn" then some (.multi none t)
+      else if k.startsWith "m" then ((k.drop 1).toString.toNat?).map fun wd => .multi (some wd) t
+      else none
+  | _ => none
+
+def stepColw (spec obs : String) : String :=
+  match (spec.splitOn ";").mapM parseCol with
+  | none => "BADOP cols"
+  | some cols =>
+    let model := (flush cols).flatMap (· ++ ['\n'])
+    if model == obsText obs then "OK" else s!"DIVERGE model={showText model}"
+
+/-! ### one dumped value -/
+
+structure Row where
+  addr : List Char
+  hex : List Char
+  ascii : List Char
+  tree : List Char
+
+/-- split a printed line at the column bars, by position -/
+def splitRow (W lb : Nat) (l : List Char) : Option Row :=
+  let hexW := 3 * lb - 1
+  if l[W]? = some '|' ∧ l[W + 1 + hexW]? = some '|' ∧ l[W + 2 + hexW + lb]? = some '|' then
+    some { addr := l.take W, hex := (l.drop (W + 1)).take hexW,
+           ascii := (l.drop (W + 2 + hexW)).take lb, tree := l.drop (W + 3 + hexW + lb) }
+  else none
+
+def trimSp (cs : List Char) : List Char :=
+  ((cs.dropWhile (· = ' ')).reverse.dropWhile (· = ' ')).reverse
+
+def allBlank (cs : List Char) : Bool := cs.all (· = ' ')
+
+structure DumpCase where
+  o : Opts
+  rootBits : Nat
+  start : Nat
+  len : Nat
+  wo : Nat
+  root : Array UInt8     -- bytes of the root buffer from byte `wo` on (a window)
+
+def DumpCase.byteAt (d : DumpCase) (a : Nat) : Option UInt8 :=
+  if a < d.wo then none else d.root[a - d.wo]?
+
+/-- cells of one data row checked against the buffer; returns the addresses of the byte cells -/
+def checkDataRow (d : DumpCase) (r : Row) : Except String (List Nat) := do
+  let some a := parseAddr d.o.addrbase (trimSp r.addr) | throw s!"address '{String.ofList r.addr}' does not parse"
+  -- the end-of-buffer marker is a '|' directly after the last pair (dump.go:310-314)
+  let markPos := r.hex.idxOf '|'
+  let hex := r.hex.map fun c => if c = '|' then ' ' else c
+  let cells := parseHex 0 0 (trimRight hex)
+  let mut shown : List Nat := []
+  for (row, c, cell) in cells do
+    if row ≠ 0 then throw "line feed inside a row"
+    match cell with
+    | .bad => throw s!"hex cell {c} of row {a} is not a hex pair"
+    | .blank =>
+      let ch := r.ascii[c]?.getD ' '
+      let isMark := ch = '|' ∧ markPos < r.hex.length ∧ (a + c) * 8 ≥ d.rootBits
+      if ch ≠ ' ' ∧ !isMark then throw s!"ascii cell {c} of row {a} shown without a hex cell"
+    | .byte b =>
+      if (a + c) * 8 ≥ d.rootBits then throw s!"cell at address {a + c} is beyond the buffer"
+      match d.byteAt (a + c) with
+      | none => throw s!"cell at address {a + c} outside the window given by the harness"
+      | some x =>
+        if x ≠ b then throw s!"hex cell at address {a + c} shows {hexOfBytes [b]} but the buffer holds {hexOfBytes [x]}"
+        if r.ascii[c]? ≠ some (safeAscii x) then throw s!"ascii cell at address {a + c} is wrong"
+        shown := shown ++ [a + c]
+  -- ascii cells beyond the hex cells
+  if markPos < r.hex.length then
+    -- the marker must sit at the end of the buffer
+    match shown.getLast? with
+    | some l => if (l + 1) * 8 < d.rootBits then throw "end marker shown before the end of the buffer"
+    | none => pure ()
+  return shown
+where
+  trimRight (cs : List Char) : List Char := (cs.reverse.dropWhile (· = ' ')).reverse
+
+def isContig (start : Nat) : List Nat → Bool
+  | [] => true
+  | x :: xs => x == start && isContig (start + 1) xs
+
+/-- last two blank-separated tokens of the tree text -/
+def lastTwo (cs : List Char) : Option (List Char × List Char) :=
+  match ((splitOnChar ' ' cs).filter (!·.isEmpty)).reverse with
+  | b :: a :: _ => some (a, b)
+  | _ => none
+
+def stripParens (cs : List Char) : Option (List Char) :=
+  match cs with
+  | '(' :: r => if r.getLast? = some ')' then some r.dropLast else none
+  | _ => none
+
+def checkUntil (d : DumpCase) (hexCol : List Char) : Except String Unit := do
+  let stopBit := d.start + d.len - 1
+  let hexW := 3 * d.o.lineBytes - 1
+  let t := trimSp hexCol
+  let want := untilText d.o d.rootBits d.start d.len
+  if want.length > hexW then
+    -- the marker does not fit the hex column and is cut by FlushLine (dump.go:324 TODO);
+    -- what is visible must be a prefix of the true marker
+    if hexCol ≠ want.take hexW then throw s!"until marker '{String.ofList hexCol}' is not a prefix of the true one"
+  else
+    let toks := (splitOnChar ' ' t).filter (!·.isEmpty)
+    match toks with
+    | u :: stop :: rest =>
+      if u ≠ "until".toList then throw "until marker expected"
+      if parseByteBits d.o.addrbase stop ≠ some stopBit then
+        throw s!"until marker names '{String.ofList stop}', the value stops at bit {stopBit}"
+      let (isEnd, rest) := match rest with
+        | e :: r => if e = "(end)".toList then (true, r) else (false, e :: r)
+        | [] => (false, [])
+      if isEnd ≠ (stopBit + 1 = d.rootBits) then throw "until marker: (end) is wrong"
+      match rest with
+      | [sz] =>
+        match stripParens sz with
+        | some s => if parseAddr d.o.sizebase s ≠ some ((d.len + 7) / 8) then throw "until marker: size is wrong"
+        | none => throw "until marker: size expected"
+      | _ => throw "until marker: size expected"
+    | _ => throw "until marker expected"
+
+def checkHeader (o : Opts) (r : Row) : Bool :=
+  (List.range o.lineBytes).all fun c =>
+    let lab := (r.hex.drop (3 * c)).take 2
+    (parseBase o.addrbase lab == some c || (c < o.addrbase && lab == [' ', digitChar c]))
+      && (c + 1 == o.lineBytes || r.hex[3 * c + 2]? == some ' ')
+      && r.ascii[c]? == some (digitChar (c % o.addrbase))
+
+/-- the property statement evaluated on the printed rows of one value -/
+def dumpPredicate (d : DumpCase) (vr : Bool) (rows : List Row) : Except String Unit := do
+  let o := d.o
+  let stopByte := (d.start + d.len - 1) / 8
+  let startByte := d.start / 8
+  match rows with
+  | [] => throw "no rows"
+  | hdr :: body0 =>
+    if !allBlank hdr.addr then throw "header row has an address"
+    -- a value without data shares its first row with the header (dump.go:120-127)
+    let body := if d.len = 0 then { hdr with hex := [], ascii := [] } :: body0 else body0
+    let mut shown : List Nat := []
+    let mut truncated := false
+    let mut first := true
+    for r in body do
+      let a := trimSp r.addr
+      if a = ['*'] then
+        truncated := true
+        checkUntil d r.hex
+      else if a.isEmpty then
+        if !allBlank r.hex ∨ !allBlank r.ascii then throw "cells without an address"
+      else
+        if truncated then throw "data row after the truncation marker"
+        let s ← checkDataRow d r
+        shown := shown ++ s
+      if first then
+        first := false
+        if vr then
+          match lastTwo r.tree with
+          | none => throw "verbose range/size missing"
+          | some (rg, sz) =>
+            if parseRangeByteBits o.addrbase rg ≠ some (d.start, d.start + d.len) then
+              throw s!"verbose range '{String.ofList rg}' is not {d.start}..{d.start + d.len}"
+            match stripParens sz with
+            | some s =>
+              if parseByteBits o.sizebase s ≠ some d.len then throw s!"verbose size '{String.ofList sz}' is not {d.len} bits"
+            | none => throw "verbose size missing"
+    if d.len = 0 then
+      if !shown.isEmpty then throw "an empty value shows bytes"
+    else
+      if !isContig startByte shown then throw "shown bytes are not the value's bytes in order, each once"
+      let mayTruncate := o.displayBytes > 0 ∧ d.len > o.displayBytes * 8
+      if truncated then
+        if !mayTruncate then throw "value truncated although display_bytes allows it completely"
+        if shown.length < o.displayBytes then throw "fewer than display_bytes bytes shown"
+        if startByte + shown.length > stopByte then throw "truncation marker although everything is shown"
+      else
+        if startByte + shown.length ≠ stopByte + 1 then throw "value not shown completely and no truncation marker"
+
+def parseDumpCase (ws : List String) : Option (DumpCase × Bool) := do
+  let lb ← kvNat ws "lb"
+  let ab ← kvNat ws "ab"
+  let sb ← kvNat ws "sb"
+  let db ← kvNat ws "db"
+  let vr ← kvNat ws "vr"
+  let L ← kvNat ws "L"
+  let s ← kvNat ws "s"
+  let n ← kvNat ws "n"
+  let wo ← kvNat ws "wo"
+  let root ← (kv ws "root").bind bytesOfHex
+  if lb = 0 ∨ ab < 2 ∨ ab > 36 ∨ sb < 2 ∨ sb > 36 ∨ s + n > L then none
+  else some ({ o := ⟨lb, ab, sb, db⟩, rootBits := L, start := s, len := n, wo := wo, root := root.toArray }, vr ≠ 0)
+
+def isPow (b n : Nat) : Bool := (List.range 65).any fun k => b ^ k == n
+
+def stepDump (ws : List String) (obs : String) : String :=
+  match parseDumpCase ws with
+  | none => "BADOP dump args"
+  | some (d, vr) =>
+    let o := d.o
+    let lines := splitOnChar '\n' (obsText obs)
+    let lines := if lines.getLast? = some [] then lines.dropLast else lines
+    match lines with
+    | [] => "PROPFAIL nothing printed"
+    | l0 :: _ =>
+      let W := l0.idxOf '|'
+      match lines.mapM (splitRow W o.lineBytes) with
+      | none => "PROPFAIL column bars are not aligned"
+      | some rows =>
+        -- model
+        let tree1 : List Char := ['\n']
+        let modelRows :=
+          if d.len = 0 then emptyRows o W tree1
+          else valueRows o W d.root.toList d.rootBits d.start d.len tree1 d.wo
+        let pre (r : Row) : List Char := r.addr ++ ['|'] ++ r.hex ++ ['|'] ++ r.ascii ++ ['|']
+        let implPre := rows.map pre
+        let nm := modelRows.length
+        let extraOk := (implPre.drop nm).all fun l => l.all fun c => c = ' ' ∨ c = '|'
+        let wantW := digitsNeeded o.addrbase ((d.start + d.len + 7) / 8)
+        let wOk := W = wantW ∨ (W + 1 = wantW ∧ isPow o.addrbase ((d.start + d.len + 7) / 8))
+        let tailOk :=
+          !vr || (match rows[if d.len = 0 then 0 else 1]? with
+            | some r => lastTwo r.tree == some (rangeByteBits o.addrbase d.start d.len,
+                          ['('] ++ stringByteBits o.sizebase d.len ++ [')'])
+            | none => false)
+        let div :=
+          if implPre.take nm == modelRows ∧ extraOk ∧ wOk ∧ tailOk then ""
+          else s!" ;DIVERGE model={showText (modelRows.flatMap (· ++ ['\n']))} W={wantW}"
+        -- property
+        let hdrOk := match rows with | h :: _ => checkHeader o h | [] => false
+        match dumpPredicate d vr rows with
+        | .error e => s!"PROPFAIL {e}{div}"
+        | .ok () =>
+          if !hdrOk then
+            if o.lineBytes > o.addrbase * o.addrbase then s!"KNOWN header-overflow lb={o.lineBytes} addrbase={o.addrbase}{div}"
+            else s!"PROPFAIL column header does not name the columns{div}"
+          else if div.isEmpty then "OK" else "DIVERGE" ++ (div.drop 9).toString
+
+/-! ### whole-tree dump over one root buffer: every cell with an address is true -/
+
+def stepTree (ws : List String) (obs : String) : String :=
+  match kvNat ws "lb", kvNat ws "ab", kvNat ws "L", (kv ws "root").bind bytesOfHex with
+  | some lb, some ab, some L, some root =>
+    if lb = 0 ∨ ab < 2 ∨ ab > 36 then "BADOP tree args" else
+    let d : DumpCase := { o := ⟨lb, ab, 10, 0⟩, rootBits := L, start := 0, len := L, wo := 0, root := root.toArray }
+    let lines := splitOnChar '\n' (obsText obs)
+    let lines := if lines.getLast? = some [] then lines.dropLast else lines
+    match lines with
+    | [] => "PROPFAIL nothing printed"
+    | l0 :: _ =>
+      let W := l0.idxOf '|'
+      match lines.mapM (splitRow W lb) with
+      | none => "PROPFAIL column bars are not aligned"
+      | some rows =>
+        let res : Except String Unit := do
+          for r in rows do
+            let a := trimSp r.addr
+            if a = ['*'] ∨ a.isEmpty then
+              if a.isEmpty ∧ !allBlank r.hex ∧ !checkHeader d.o r ∧ lb ≤ ab * ab then
+                throw "row without address is neither blank nor the column header"
+            else
+              let _ ← checkDataRow d r
+        match res with
+        | .error e => s!"PROPFAIL {e}"
+        | .ok () => "OK"
+  | _, _, _, _ => "BADOP tree args"
+
+/-! ### numbers -/
+
+def stepFmt (ws : List String) (obs : String) : String :=
+  match ws.mapM String.toNat? with
+  | some [b, n, p, wd] =>
+    if b < 2 ∨ b > 36 then "BADOP base" else
+    let model := padFormat n b (p ≠ 0) wd
+    let impl := obs.toList
+    let body := impl.drop (if p ≠ 0 then (basePrefix b).length else 0)
+    let div := if model == impl then "" else s!" ;DIVERGE model={String.ofList model}"
+    if (if p ≠ 0 then parseAddr b impl else parseBase b impl) ≠ some n then s!"PROPFAIL printed number does not read back as {n}{div}"
+    else if body.length > max wd 1 ∧ body.head? = some '0' ∧ body.length > wd - (if p ≠ 0 then (basePrefix b).length else 0) then
+      s!"PROPFAIL leading zero beyond the padding{div}"
+    else if div.isEmpty then "OK" else s!"DIVERGE model={String.ofList model}"
+  | _ => "BADOP fmt args"
+
+def stepBits (ws : List String) (obs : String) : String :=
+  match ws.mapM String.toNat? with
+  | some [b, n] =>
+    if b < 2 ∨ b > 36 then "BADOP base" else
+    let model := stringByteBits b n
+    let div := if model == obs.toList then "" else s!" ;DIVERGE model={String.ofList model}"
+    if parseByteBits b obs.toList ≠ some n then s!"PROPFAIL printed size does not read back as {n} bits{div}"
+    else if div.isEmpty then "OK" else s!"DIVERGE model={String.ofList model}"
+  | _ => "BADOP bits args"
+
+def stepRange (ws : List String) (obs : String) : String :=
+  match ws.mapM String.toNat? with
+  | some [b, s, n] =>
+    if b < 2 ∨ b > 36 then "BADOP base" else
+    let model := rangeByteBits b s n
+    let div := if model == obs.toList then "" else s!" ;DIVERGE model={String.ofList model}"
+    if parseRangeByteBits b obs.toList ≠ some (s, s + n) then s!"PROPFAIL printed range does not read back{div}"
+    else if div.isEmpty then "OK" else s!"DIVERGE model={String.ofList model}"
+  | _ => "BADOP range args"
+
+def stepDigits (ws : List String) (obs : String) : String :=
+  match ws.mapM String.toNat?, obs.toNat? with
+  | some [b, n], some got =>
+    if b < 2 ∨ b > 36 then "BADOP base" else
+    let want := digitsNeeded b n
+    -- the address column must hold every address below n (dump.go:355 passes the stop byte)
+    let needBelow := if n = 0 then want else digitsNeeded b (n - 1)
+    if got < needBelow then s!"PROPFAIL DigitsInBase({n},{b})={got} cannot hold the address {n - 1}"
+    else if got = want ∨ (got + 1 = want ∧ isPow b n) then "OK"
+    else s!"DIVERGE model={want}"
+  | _, _ => "BADOP digits args"
+
+/-! ### JSON -/
+
+def stepJson (mode : String) (text : List Char) (obs : String) : String :=
+  match parseJson text with
+  | none => "BADOP json value"
+  | some v =>
+    let indent := if mode == "i" then 2 else 0
+    let impl := obsText obs
+    let impl := if impl.getLast? = some '\n' then impl.dropLast else impl
+    let model := encodeJson indent v
+    let div := if model == impl then "" else s!" ;DIVERGE model={showText model}"
+    match parseJson impl with
+    | none => s!"PROPFAIL output is not valid JSON{div}"
+    | some v' =>
+      if !(JV.beq (normalize v') (normalize v)) then s!"PROPFAIL output parses to a different value{div}"
+      else if div.isEmpty then "OK" else s!"DIVERGE model={showText model}"
+
+def dropWord (cs : List Char) : List Char := (cs.dropWhile (· ≠ ' ')).drop 1
+
+def stepC10 (op obs : String) : String :=
+  match words op with
+  | ["hexw", w, s, ch] =>
+    match w.toNat?, s.toNat?, parseChunks ch with
+    | some w, some s, some chunks => stepHexw w s chunks obs
+    | _, _, _ => "BADOP hexw args"
+  | ["asciiw", w, s, ch] =>
+    match w.toNat?, s.toNat?, parseChunks ch with
+    | some w, some s, some chunks => stepAsciiw w s chunks obs
+    | _, _, _ => "BADOP asciiw args"
+  | ["colw", spec] => stepColw spec obs
+  | "fmt" :: ws => stepFmt ws obs
+  | "bits" :: ws => stepBits ws obs
+  | "range" :: ws => stepRange ws obs
+  | "digits" :: ws => stepDigits ws obs
+  | "dump" :: ws => stepDump ws obs
+  | "tree" :: ws => stepTree ws obs
+  | "json" :: mode :: _ => stepJson mode (dropWord (dropWord op.toList)) obs
+  | _ => "BADOP op"
+
+def main : IO Unit := run stepC10
